@@ -95,6 +95,22 @@ def random_track(rng, values, nbars=None, one_key_meter=True, instrument=None, m
         r = rng.random()
         rp = 1.0 if r < 0.08 else (rest_p if r < 0.9 else 0.7)       # whole-bar rests, rest-heavy bars
         bars.append(random_bar(rng, key, meter, values, rest_p=rp, **kw))
+    if bars and nbars is None and rng.random() < 0.25:
+        # a second, separate bar with the same key, meter, values and pitches as an earlier one: the phrase played again,
+        # louder or softer or on another channel (or exactly alike)
+        i = rng.randrange(len(bars))
+        how = rng.choice(["velocity", "channel", "both", "alike"])
+        vel = kw.get("velocity", (1, 127))
+        entries = []
+        for e in bars[i]["entries"]:
+            notes = e["notes"]
+            if notes:
+                dv = rng.randint(vel[0], vel[1])
+                dc = rng.randint(0, 15)
+                notes = [[n[0], n[1], dc if how in ("channel", "both") else n[2], dv if how in ("velocity", "both") else n[3]] for n in notes]
+            entries.append({"v": list(e["v"]), "notes": notes})
+        again = {"key": bars[i]["key"], "meter": list(bars[i]["meter"]), "entries": entries}
+        bars.insert(rng.randint(i + 1, len(bars)), again)
     if len(bars) >= 2 and rng.random() < 0.2:
         # one bar object is placed in the track a second time (a repeated phrase)
         i = rng.randrange(len(bars))
